@@ -147,8 +147,20 @@ def check_case(case: dict):
             # the unit hangs up behind its (unacceptable) reply: FIN or RST, seen by the client's loop after or in the same pass as the reply
             dev.default_hs_action = (dev.default_hs_action[0], dict(dev.default_hs_action[1], then=case["then"]))
 
-        targ = token.hex() if case.get("token_form") == "hex" else token
-        karg = key.hex() if case.get("key_form") == "hex" else key
+        def form(b, how):
+            # hex text in the spellings bytes.fromhex() reads: plain, upper case, bytes separated by blanks, wrapped lines
+            if how == "hex":
+                return b.hex()
+            if how == "HEX":
+                return b.hex().upper()
+            if how == "hex_spaced":
+                return b.hex(" ")
+            if how == "hex_wrapped":
+                h = b.hex()
+                return "\n".join(h[i:i + 32] for i in range(0, len(h), 32)) + "\n"
+            return b
+        targ = form(token, case.get("token_form"))
+        karg = form(key, case.get("key_form"))
         try:
             if kind == "nobudget" and prior in ("fresh", "late"):
                 await ac._lan.authenticate(targ, karg, retries=mut[1])
@@ -321,6 +333,16 @@ def run(ctx) -> None:
                     case = {"token": tokb.hex(), "key": keyb.hex(), "nonce": "%02x" % hx, "token_form": "bytes", "key_form": "bytes", "prior": prior, "mut": m}
                     ctx.check(case, lambda c: _run_one(ctx, c))
     ctx.sweep("bytes credentials made of ASCII hex digits x prior x mutation", hx, True)
+    # hex text in every spelling bytes.fromhex() reads, mixed with bytes
+    sp = 0
+    for tf in ("bytes", "hex", "HEX", "hex_spaced", "hex_wrapped"):
+        for kf in ("bytes", "hex", "HEX", "hex_spaced", "hex_wrapped"):
+            for m in (["genuine"], ["flip", 100], ["wrongkey", 3]):
+                sp += 1
+                if ctx.mine(sp):
+                    tok, key = _creds(60 + sp % 5)
+                    ctx.check({"token": tok.hex(), "key": key.hex(), "nonce": "%02x" % sp, "token_form": tf, "key_form": kf, "prior": ["fresh", "authed"][sp % 2], "mut": m}, lambda c: _run_one(ctx, c))
+    ctx.sweep("credential spellings (bytes, hex, upper-case hex, blank-separated hex, wrapped hex) x token/key x mutation", sp, True)
     # something arrives in the same segment right behind the reply
     bh = 0
     for behind in ("data", "reply2"):
@@ -368,7 +390,7 @@ def run(ctx) -> None:
                     st.tuples(st.just("raw"), hexb(st.one_of(st.binary(max_size=90), st.binary(max_size=80).map(lambda b: b"\x83\x70" + bytes([0, len(b) - 2 if len(b) >= 2 else 0, 0x20]) + b)))).map(list))
     cases = st.fixed_dictionaries({
         "token": hexb(gens.tokens64()), "key": hexb(gens.keys32()), "nonce": hexb(st.binary(min_size=1, max_size=8)),
-        "token_form": st.sampled_from(["bytes", "hex"]), "key_form": st.sampled_from(["bytes", "hex"]),
+        "token_form": st.sampled_from(["bytes", "hex", "HEX", "hex_spaced"]), "key_form": st.sampled_from(["bytes", "hex", "hex_wrapped"]),
         "prior": st.sampled_from(["fresh", "fresh", "authed", "late", "expired"]), "mut": mut, "id": gens.device_ids(48)},
         optional={"cuts": st.lists(st.integers(1, 71), min_size=1, max_size=4, unique=True).map(sorted), "gap": st.sampled_from([0.0, 0.01, 0.5]),
                   "lost_first": st.sampled_from([0, 0, 1, 2]), "then": st.sampled_from(["fin", "rst", "fin_same", "rst_same"]), "behind": st.sampled_from(["data", "reply2"]),
